@@ -148,9 +148,22 @@ func runNodeMode(seed int64, n int, tr *transcript) {
 		tr.emit(fmt.Sprintf("bn new %d %d %s", i, plen, hex.EncodeToString(pfx[:])), "ok")
 		strat := i % 6
 		tr.stats[fmt.Sprintf("bare-strategy-%d", strat)]++
-		byteSrc := func() byte { return byte(r.Intn(256)) }
+		rawSrc := func() byte { return byte(r.Intn(256)) }
 		if strat == 0 || r.Intn(4) == 0 {
-			byteSrc = func() byte { return pick(r, edgeBytes) }
+			rawSrc = func() byte { return pick(r, edgeBytes) }
+		}
+		// a byte that is not registered yet (falls back to any free byte)
+		byteSrc := func() byte {
+			for try := 0; try < 16; try++ {
+				if b := rawSrc(); d.present[b] == 0 {
+					return b
+				}
+			}
+			for {
+				if b := byte(r.Intn(256)); d.present[b] == 0 || len(d.present) == 256 {
+					return b
+				}
+			}
 		}
 		switch strat {
 		case 0: // node4 closure over boundary bytes
